@@ -311,3 +311,150 @@ func init() {
 		return out
 	}
 }
+
+func init() {
+	const gcommon = "github.com/ethereum/go-ethereum/common"
+	const gcrypto = "github.com/ethereum/go-ethereum/crypto"
+	addrBytes := func(v value) []byte {
+		a := v.(array)
+		b := make([]byte, len(a))
+		for k := range a {
+			c, ok := a[k].(uint8)
+			if !ok {
+				panic(abortPath{"symbolic byte in an ethereum address"})
+			}
+			b[k] = c
+		}
+		return b
+	}
+	// EIP-55 checksum hex (native on the concrete address)
+	hexOf := func(fr *frame, args []value) value {
+		b := addrBytes(args[0])
+		buf := []byte(fmt.Sprintf("%x", b))
+		h := keccak256(buf)
+		for i := 0; i < len(buf); i++ {
+			hb := h[i/2]
+			if i%2 == 0 {
+				hb = hb >> 4
+			} else {
+				hb &= 0xf
+			}
+			if buf[i] > '9' && hb > 7 {
+				buf[i] -= 32
+			}
+		}
+		return "0x" + string(buf)
+	}
+	externals["("+gcommon+".Address).Hex"] = hexOf
+	externals["("+gcommon+".Address).String"] = hexOf
+	// CreateAddress(b, nonce) = keccak(rlp([b, nonce]))[12:]
+	externals[gcrypto+".CreateAddress"] = func(fr *frame, args []value) value {
+		fr.i.x.stub("crypto.CreateAddress (native rlp+keccak on concrete sender and nonce)")
+		b := addrBytes(args[0])
+		n := fr.i.concreteInt64(args[1], "create-address nonce")
+		var enc []byte
+		enc = append(enc, 0x80+20)
+		enc = append(enc, b...)
+		un := uint64(n)
+		switch {
+		case un == 0:
+			enc = append(enc, 0x80)
+		case un < 0x80:
+			enc = append(enc, byte(un))
+		default:
+			var nb []byte
+			for v := un; v > 0; v >>= 8 {
+				nb = append([]byte{byte(v)}, nb...)
+			}
+			enc = append(enc, 0x80+byte(len(nb)))
+			enc = append(enc, nb...)
+		}
+		enc = append([]byte{0xc0 + byte(len(enc))}, enc...)
+		h := keccak256(enc)[12:]
+		out := make(array, 20)
+		for k := range out {
+			out[k] = h[k]
+		}
+		return out
+	}
+}
+
+// ---- Keccak state objects (sha3.NewLegacyKeccak256): native on concrete bytes ----
+
+type kstate struct {
+	in  []byte
+	out []byte // squeezed output so far consumed
+	pos int
+}
+
+func init() {
+	const sha = "golang.org/x/crypto/sha3"
+	get := func(fr *frame, v value) *kstate {
+		p := v.(*value)
+		k, _ := fr.i.side[p].(*kstate)
+		if k == nil {
+			panic(abortPath{"keccak state not created by NewLegacyKeccak256"})
+		}
+		return k
+	}
+	externals[sha+".NewLegacyKeccak256"] = func(fr *frame, args []value) value {
+		fr.i.x.stub("keccak256 (native on concrete bytes)")
+		pkg := fr.i.prog.ImportedPackage(sha)
+		st := pkg.Type("state").Type()
+		c := zero(st)
+		p := &c
+		fr.i.side[p] = &kstate{}
+		return iface{t: types.NewPointer(st), v: p}
+	}
+	externals["(*"+sha+".state).Reset"] = func(fr *frame, args []value) value {
+		k := get(fr, args[0])
+		k.in, k.out, k.pos = nil, nil, 0
+		return nil
+	}
+	externals["(*"+sha+".state).Write"] = func(fr *frame, args []value) value {
+		k := get(fr, args[0])
+		b := concreteBytes(args[1].([]value), "keccak input")
+		k.in = append(k.in, b...)
+		return tuple{len(b), iface{}}
+	}
+	squeeze := func(k *kstate, n int) []byte {
+		if k.out == nil {
+			k.out = keccak256(k.in)
+		}
+		if k.pos+n > len(k.out) {
+			panic(abortPath{"keccak: more than 32 bytes squeezed"})
+		}
+		o := k.out[k.pos : k.pos+n]
+		k.pos += n
+		return o
+	}
+	externals["(*"+sha+".state).Read"] = func(fr *frame, args []value) value {
+		k := get(fr, args[0])
+		dst := args[1].([]value)
+		o := squeeze(k, len(dst))
+		for i := range dst {
+			dst[i] = o[i]
+		}
+		return tuple{len(dst), iface{}}
+	}
+	externals["(*"+sha+".state).Sum"] = func(fr *frame, args []value) value {
+		k := get(fr, args[0])
+		h := keccak256(k.in)
+		pre, _ := args[1].([]value)
+		out := append([]value{}, pre...)
+		for _, b := range h {
+			out = append(out, b)
+		}
+		return out
+	}
+	externals["(*"+sha+".state).Size"] = func(fr *frame, args []value) value { return 32 }
+	externals["(*"+sha+".state).BlockSize"] = func(fr *frame, args []value) value { return 136 }
+
+	// (*types.Transaction).Size: rlp length of the inner transaction; only
+	// compared with the 128 KB cap by the code under analysis
+	const gtypes = "github.com/ethereum/go-ethereum/core/types"
+	externals["(*"+gtypes+".Transaction).Size"] = func(fr *frame, args []value) value {
+		fr.i.x.stub("types.Transaction.Size (constant 200: harness payloads are a few bytes, far below the 128 KB cap)")
+		return float64(200)
+	}
+}
